@@ -625,6 +625,10 @@ func checkC03(cs *c03Case, o *pt.Obs) error {
 							o.Known("C04-earliest-latest-null-bool")
 							continue
 						}
+						if oka && okb && (m.Fn == "sum" || m.Fn == "avg") && sumSameByMagnitude(m.Fn, va, vb, grpEvs[key], m.Field) {
+							o.Class("float_association")
+							continue
+						}
 						if oka && okb && m.Fn == "list" && listSameTruncated(va, vb, grpEvs[key], m.Field) {
 							o.Class("list_truncated")
 							continue
@@ -724,6 +728,44 @@ func isIntZero(v sut.TV) bool {
 	}
 	i, ok := v.Int()
 	return ok && i == 0
+}
+
+// sumSameByMagnitude: a float sum depends on the order of the additions (blocks and segments are added up
+// in layout order). The difference between two orders is bounded by about n*2^-53 times the sum of the
+// absolute values, not by the size of the result: 1.8e308 + x - 1.8e308 is x or 0. Accept a difference within
+// 1e-12 * sum|x| (avg: divided by the number of values); if sum|x| itself overflows float64, partial sums may
+// overflow too and nothing is fixed. Only for columns holding a float (integer sums are exact).
+func sumSameByMagnitude(fn string, a, b sut.TV, grp []*model.Event, field string) bool {
+	fa, oka := numOf(a)
+	fb, okb := numOf(b)
+	if !oka || !okb {
+		return false
+	}
+	mag, n, hasFloat := 0.0, 0, false
+	for _, e := range grp {
+		flat, _ := e.Flat()
+		if v, ok := flat[field]; ok && v.IsNum() {
+			mag += math.Abs(v.Num())
+			n++
+			if v.K == model.KFloat {
+				hasFloat = true
+			}
+		}
+	}
+	if !hasFloat || n == 0 {
+		return false
+	}
+	if math.IsInf(mag, 0) {
+		return true
+	}
+	if math.IsNaN(fa) || math.IsNaN(fb) || math.IsInf(fa, 0) || math.IsInf(fb, 0) {
+		return false
+	}
+	tol := 1e-12 * mag
+	if fn == "avg" {
+		tol /= float64(n)
+	}
+	return math.Abs(fa-fb) <= tol
 }
 
 // listLimit is the number of values list() keeps (sutils.MAX_SPL_LIST_SIZE).
